@@ -350,6 +350,11 @@ pub fn std_menu(s: &Sim, o: &MenuOpt) -> Vec<Act> {
                 // staked total without any LST: the next stake sweeps the ownerless stake to fees
                 a.push(resume(&adm(), 500, 0, 0));
             }
+            // an LST total below what is already queued for unstaking (an admin correcting the books too far)
+            let queued = s.m.batches.get(&s.m.pending).map(|b| b.total).unwrap_or(0);
+            if o.slashed_resume && dev_left && queued > 1 {
+                a.push(resume(&adm(), queued - 1, queued - 1, st.total_reward_amount.u128()));
+            }
             if o.slashed_resume && dev_left && st.total_native_token.u128() > 10 {
                 a.push(resume(&adm(), st.total_native_token.u128() * 3 / 4, st.total_liquid_stake_token.u128(), st.total_reward_amount.u128()));
             }
